@@ -268,8 +268,9 @@ class Analysis:
                     ty = f.local_ty(i)
                     t = top_of(ty)
                     taint = EMPTY
-                    if self.api_taint and f.kind != "closure":
-                        taint = frozenset(["A:%s:%s" % (f.id, f.local_name(i) or i)])
+                    if self.api_taint and f.kind != "closure" and f.local_name(i) != "self":
+                        seq = ("[" in ty) or ("Vec<" in ty) or ty.endswith("str") or ("String" in ty)
+                        taint = frozenset(["%s:%s:%s" % ("AS" if seq else "A", f.id, f.local_name(i) or i)])
                     self.join_param(f.id, i, (t[0], t[1], taint, False), ty)
                 if f.argc == 0:
                     self.param_in.setdefault(f.id, {})
@@ -395,7 +396,7 @@ class FnPass:
                 return (bv[0], bv[1], taint, bv[3])
             if len(projs) == 1 and last[0] == "*" and fn.local_ty(base).startswith("&mut"):
                 # value behind a &mut: unknown range, but keep taint
-                return (lo, hi, taint, False)
+                return (lo, hi, taint | USET, False)
         if last[0] == "." and last[3] and last[3] in self.prog.adts:
             fv = self.an.field.get((last[3], last[2]))
             if fv is not None and fv[0] is not None:
@@ -423,7 +424,7 @@ class FnPass:
                     walk(sv)
                 if flat:
                     return (min(flat), max(flat), taint, False)
-        return (lo, hi, taint, False)
+        return (lo, hi, taint | USET, False)
 
     def static_of_local(self, l, depth=0):
         """static item a local refers to (through copies, derefs, reborrows), or None"""
@@ -564,7 +565,7 @@ class FnPass:
             tlo, thi = INT_RANGES[to]
             if v[0] is None:
                 # float -> int etc.
-                return (tlo, thi, v[2], False)
+                return (tlo, thi, v[2] | USET, False)
             if rv[1] in ("IntToInt",):
                 if v[0] >= tlo and v[1] <= thi:
                     return (v[0], v[1], v[2], v[3])
@@ -636,7 +637,12 @@ class FnPass:
             return (None, None, taint, False)
         if k == "discr":
             v = self.read_place(st, rv[1])
-            return (0, 2**63 - 1 if dest_ty not in INT_RANGES else INT_RANGES[dest_ty][1], v[2], False) if True else None
+            ety = ir.pl_ty(self.fn, rv[1])
+            a = self.prog.adts.get(ety)
+            if a and a.get("discrs"):
+                ds = a["discrs"]
+                return (min(ds), max(ds), v[2], False)
+            return (0, 2**63 - 1 if dest_ty not in INT_RANGES else INT_RANGES[dest_ty][1], v[2] | USET, False)
         if k == "repeat":
             v = self.read_operand(st, rv[1])
             return (None, None, v[2], False)
@@ -1438,7 +1444,7 @@ class FnPass:
             if place in self.escaped and payload_ty(dty) is not None:
                 t = top_of(dty)
                 old = st.get(place)
-                v = (t[0], t[1], v[2] | (old[2] if old else EMPTY), False)
+                v = (t[0], t[1], v[2] | USET | (old[2] if old else EMPTY), False)
             if v == self.default(place):
                 st.pop(place, None)
             else:
@@ -2057,7 +2063,17 @@ class FnPass:
         if name == "len" and pt == "usize":
             # the length of a buffer is not tainted by the buffer's contents
             il = self._is_input_slice(args[0])
-            al = frozenset("AL:" + x[2:] for x in (a0[2] if a0 else ()) if x.startswith("A:"))
+            al = EMPTY
+            p0 = op_place(args[0]) if args else None
+            if p0 is not None:
+                for r in self.roots(pl_local(p0)):
+                    if 1 <= r <= fn.argc and fn.local_name(r) != "self":
+                        rty = fn.local_ty(r)
+                        if ("[" in rty) or ("Vec<" in rty) or rty.endswith("str") or ("String" in rty):
+                            pv = self.get(st, r)
+                            # only a pure pass-through of public slice arguments counts
+                            if pv[2] and all(x.startswith("AS:") for x in pv[2]):
+                                al = al | frozenset("AL:" + x[3:] for x in pv[2])
             return (0, 2**63 - 1, al if al else USET, il)
         if name in ("position", "remaining", "remaining_len") and pt is not None:
             return mk(0, 2**63 - 1, name != "position")
